@@ -4,6 +4,7 @@ import (
 	"fmt"
 	"math/rand"
 	"os"
+	"strconv"
 
 	"oss.terrastruct.com/d2/d2graph"
 	"oss.terrastruct.com/d2/d2lib"
@@ -14,14 +15,16 @@ import (
 
 func main() {
 	b, _ := os.ReadFile(os.Args[1])
-	layout := geoutil.FakeLayout(rand.New(rand.NewSource(745742141074)))
+	var layout d2graph.LayoutGraph = geoutil.Dagre
 	if len(os.Args) > 2 {
-		layout = geoutil.Dagre
+		seed, _ := strconv.ParseInt(os.Args[2], 10, 64)
+		layout = geoutil.FakeLayout(rand.New(rand.NewSource(seed)))
 	}
 	_, g, err := d2lib.Compile(hl.QuietCtx(), string(b), &d2lib.CompileOptions{Ruler: geoutil.Ruler(),
 		LayoutResolver: func(string) (d2graph.LayoutGraph, error) { return layout, nil }}, nil)
 	fmt.Println(err)
 	for _, o := range g.Objects {
-		fmt.Println(o.AbsID(), o.TopLeft, o.Width, o.Height)
+		ib := o.ToShape().GetInnerBox()
+		fmt.Println(o.AbsID(), o.Shape.Value, o.TopLeft, o.Width, o.Height, "inner", ib.TopLeft, ib.Width, ib.Height)
 	}
 }
